@@ -9,6 +9,8 @@
 //	search <origin> <max> zu=<0|1> bf=[p:d..]  => [p:d:route ...]    NewShortestPathSearchFromPoint+ExpandSearch,
 //	                                                                  PointDistances, AllRoutes, BuildPath
 //	searchto <origin> <to> <max> zu=.. bf=[..] => [p:d:route ...]    ...+ExpandSearchTo (= ComputeShortestPath)
+//	access <origin> <max> zu=.. bf=[..]        => [p:d ...] | [seg:n ...]   ComputeAccessibility: distances of the points the
+//	                                                                  search reached, and the per-segment path counts
 //
 // bf = in-harness Bellman-Ford over the dumped Traverse adjacency (usable segments), no limit.
 // zu = "some feature referencing the origin is usable" (the connectivity probe of
@@ -228,6 +230,37 @@ func renderSearch(s *graph.ShortestPathSearch) string {
 	return hx.List(out)
 }
 
+// renderAccess: ComputeAccessibility's distances for exactly the points the search itself reached (the
+// other keys of the map are interpolated mid-segment points, which have no weighted distance), and its
+// segment counts (direction dropped, as the code does).
+func renderAccess(o b6.FeatureID, max float64, weights graph.Weights, w b6.World) string {
+	s := graph.NewShortestPathSearchFromPoint(o, weights, w)
+	s.ExpandSearch(max, weights, graph.Points, w)
+	reached := s.PointDistances()
+	dist, counts := graph.ComputeAccessibility(o, max, weights, w)
+	dm := map[string]string{}
+	for id := range reached {
+		if d, ok := dist[id]; ok {
+			dm[ptName(id)] = num(d)
+		} else {
+			dm[ptName(id)] = "missing"
+		}
+	}
+	var ds []string
+	for _, k := range hx.SortedKeys(dm) {
+		ds = append(ds, k+":"+dm[k])
+	}
+	cm := map[string]int{}
+	for k, n := range counts {
+		cm[fmt.Sprintf("w%d.%d.%d", k.ID.Value, k.First, k.Last)] += n
+	}
+	var cs []string
+	for _, k := range hx.SortedKeys(cm) {
+		cs = append(cs, fmt.Sprintf("%s:%d", k, cm[k]))
+	}
+	return hx.List(ds) + " | " + hx.List(cs)
+}
+
 // zeroUsable mirrors the connectivity probe of NewShortestPathSearchFromPoint (after fix
 // C30-origin-on-oneway-path): some referencing physical feature is usable — paths as their own forward
 // segment (b6.ToSegment), other features as Segment{Feature: f}.
@@ -353,6 +386,12 @@ func runWorld(c *hx.Ctx, p plan) {
 			if reported >= 4 && strings.Count(ans, "/") > reported {
 				c.NonTrivial()
 			}
+		}
+		{ // ComputeAccessibility with one of the limits
+			max := limits[r.Intn(len(limits))]
+			ans := hx.Recover(func() string { return renderAccess(o, max, p.weights, w) })
+			c.Op(fmt.Sprintf("access %s %s zu=%s bf=%s", ptName(o), num(max), b01(zu), renderDist(bf)), ans)
+			c.Note("op:access")
 		}
 		// ExpandSearchTo / ComputeShortestPath towards two other points
 		for k := 0; k < 2 && len(pts) > 1; k++ {
